@@ -146,7 +146,8 @@ def gen_synth(rnd):
                 r = rnd.choice(same)
         decoys.append((kind, r, ref))
     return {'mods': mods, 'nres': nres, 'plants': plants, 'decoys': decoys, 'scramble': rnd.random() < 0.6,
-            'key_shuffle': rnd.random() < 0.5, 'resid_start': rnd.choice([1, 5, 40])}
+            'key_shuffle': rnd.random() < 0.5, 'resid_start': rnd.choice([1, 5, 40, 0]),
+            'own_resid': {str(mi): rnd.choice(['own', 'own', 'next']) for mi, _ in plants if rnd.random() < 0.15}}
 
 
 def build_synth(case, rnd):
@@ -184,7 +185,12 @@ def build_synth(case, rnd):
         for n, e in m['ptm']:
             k = next(kit)
             nm = n if not case['scramble'] else '%sq%d' % (e, aid)
-            mol.add_node(k, atomname=nm, element=e, resname='RES', resid=case['resid_start'] + residues[0], chain='A',
+            # the added atoms are usually numbered with the residue they hang off; sometimes as a residue of their own
+            # (a phosphate or cap numbered separately), sometimes with the next residue
+            own = case.get('own_resid', {}).get(str(mi))
+            rid = case['resid_start'] + residues[0] if own is None else (case['resid_start'] + 100 + mi if own == 'own' else
+                                                                         case['resid_start'] + residues[0] + 1)
+            mol.add_node(k, atomname=nm, element=e, resname='RES', resid=rid, chain='A',
                          atomid=aid, PTM_atom=True)
             aid += 1
             local[n] = k
